@@ -313,6 +313,85 @@ def c10_scenario(rep, binary, workdir, rng, attempt=0):
                     "example": {"frame": fr, "receiver_serials": per_frame[fr]}})
 
 
+class FakeRedis:
+    """just enough of the Redis protocol for jet1090 --redis-url: every command is acknowledged, PUBLISH payloads are kept"""
+
+    def __init__(self):
+        import threading
+        self.sock = socket.socket()
+        self.sock.bind(("127.0.0.1", 0))
+        self.sock.listen(4)
+        self.port = self.sock.getsockname()[1]
+        self.published = []
+        self.commands = set()
+        threading.Thread(target=self._serve, daemon=True).start()
+
+    @staticmethod
+    def _parse(buf):
+        cmds = []
+        while buf.startswith(b"*"):
+            i = buf.find(b"\r\n")
+            if i < 0:
+                break
+            n, pos, parts, ok = int(buf[1:i]), i + 2, [], True
+            for _ in range(n):
+                j = buf.find(b"\r\n", pos)
+                if buf[pos:pos + 1] != b"$" or j < 0:
+                    ok = False
+                    break
+                ln = int(buf[pos + 1:j])
+                if len(buf) < j + 2 + ln + 2:
+                    ok = False
+                    break
+                parts.append(buf[j + 2:j + 2 + ln])
+                pos = j + 2 + ln + 2
+            if not ok:
+                break
+            cmds.append(parts)
+            buf = buf[pos:]
+        return cmds, buf
+
+    def _handle(self, c):
+        buf = b""
+        while True:
+            try:
+                d = c.recv(65536)
+            except OSError:
+                return
+            if not d:
+                return
+            buf += d
+            cmds, buf = self._parse(buf)
+            for cmd in cmds:
+                name = cmd[0].upper()
+                self.commands.add(name.decode(errors="replace"))
+                try:
+                    if name == b"PUBLISH" and len(cmd) >= 3:
+                        self.published.append((cmd[1].decode(errors="replace"), cmd[2].decode(errors="replace")))
+                        c.sendall(b":1\r\n")
+                    elif name == b"HELLO":
+                        c.sendall(b"-ERR unknown command\r\n")
+                    else:
+                        c.sendall(b"+OK\r\n")
+                except OSError:
+                    return
+
+    def _serve(self):
+        import threading
+        while True:
+            try:
+                c, _ = self.sock.accept()
+            except OSError:
+                return
+            threading.Thread(target=self._handle, args=(c,), daemon=True).start()
+
+    def close(self):
+        try:
+            self.sock.close()
+        except OSError:
+            pass
+
+
 # ---------------------------------------------------------------- C11: command line filters on stdout and on the output file
 
 def c11_scenario(rep, binary, workdir, rng, frame_maker, attempt=0):
@@ -343,6 +422,10 @@ def c11_scenario(rep, binary, workdir, rng, frame_maker, attempt=0):
         rng.shuffle(ac_filter)
         for a in ac_filter:
             args += ["--aircraft-filter", "%06x" % a]
+    # the third sink: a Redis pub/sub channel (a stand-in server that keeps what is published)
+    redis = FakeRedis()
+    topic = "jet-%d" % rng.randrange(1000)
+    args += ["--redis-url", f"redis://127.0.0.1:{redis.port}", "--redis-topic", topic]
     run = Run(binary, workdir, nsrc=1, window=100, args=args, serve=True, tag="c11sys")
     tracks = {}
     try:
@@ -366,6 +449,7 @@ def c11_scenario(rep, binary, workdir, rng, frame_maker, attempt=0):
                 break
     finally:
         code, err = run.stop()
+        redis.close()
     try:
         with open(out_file) as f:
             file_lines = [l for l in f.read().split("\n") if l.strip()]
@@ -395,6 +479,17 @@ def c11_scenario(rep, binary, workdir, rng, frame_maker, attempt=0):
         if not ok:
             rep.violation(f"C11:system:wrongly-kept:DF{o.get('df')}", f"jet1090 {' '.join(args[4:])} printed a record with df={o.get('df')} icao24={o.get('icao24')}: {l[:160]}", replay)
         rep.cls("system:stdout-records")
+    pub = [p for t, p in redis.published]
+    if any(t != topic for t, _ in redis.published):
+        rep.violation("C11:system:redis-topic", f"published on {sorted({t for t, _ in redis.published})}, --redis-topic was {topic}", replay)
+    if "PUBLISH" not in redis.commands and lines:
+        rep.cls("system:redis-nothing-published(not judged)")
+    elif pub != lines[:len(pub)] and lines != pub[:len(lines)]:
+        only_r = [l for l in pub if l not in lines][:1]
+        only_o = [l for l in lines if l not in pub][:1]
+        rep.violation("C11:system:redis-differs-from-stdout", f"Redis received {len(pub)} records, stdout {len(lines)}; only on Redis: {only_r}, only on stdout: {only_o}", replay)
+    elif pub:
+        rep.cls("system:redis==stdout")
     for icao, hist in tracks.items():
         for h in hist or []:
             rep.cls("system:history-records")
